@@ -25,15 +25,15 @@ RULE = (
     "responses); non-trivial = a service ran"
 )
 ASSUMPTIONS = [
-    "a declaration rejected because another context owns the name leaves the other names of the same function unspecified; "
-    "context T therefore only uses single-name variants",
+    "a declaration rejected because another context owns one of its names leaves the other names of the same function unspecified "
+    "while that function lives (the subsystems differ); once the function is deleted or the integration unloaded they must be gone",
     "calls that Home Assistant itself rejects (return_response on a service without response support) are not generated",
     "the entity-method form DOMAIN.entity.service(...) needs pyscript's cache of service parameters, which the legacy subsystem only refreshes at "
     "start-up and at the beginning of a reload: toward services defined afterwards the form is not available there, so it is explored in the default subsystem only",
 ]
 MAXTASKS = 30
 
-UNIVERSE = [("pyscript", "svc"), ("test", "s1"), ("test", "s2"), ("test", "s3"), ("test", "s4"), ("test", "f1")]
+UNIVERSE = [("pyscript", "svc"), ("test", "s1"), ("test", "s2"), ("test", "s3"), ("test", "s4"), ("test", "f1"), ("test", "t_own")]
 
 # variant -> (decorator lines, names, supports_response)
 VARIANTS = {
@@ -45,10 +45,12 @@ VARIANTS = {
     "V6": (["@service(\"test.s4\", supports_response=\"only\")"], [("test", "s4")], "only"),
     # the default name is the declared function's name also when a user decorator returns a wrapper
     "V7": (["@service", "@logged"], [("pyscript", "svc")], "none"),
+    # two names of which the second may belong to the other context: a partly rejected declaration
+    "V8": (["@service(\"test.t_own\", \"test.s1\")"], [("test", "t_own"), ("test", "s1")], "none"),
 }
 S_VARIANTS = ["V1", "V2", "V3", "V4", "V5", "V6", "V7"]
 LOGGED = "def logged(fn):\n    def wrapper(**kw):\n        return fn(**kw)\n    return wrapper\n"
-T_VARIANTS = ["V1", "V5"]
+T_VARIANTS = ["V1", "V5", "V8"]
 
 BODY = '''def {fname}(**kw):
     runs.append(("{ctx}", "{fname}", {gen}, kw.get("trigger_type"), kw.get("x"), sorted([k for k in kw if k not in ("trigger_type", "x", "context")])))
@@ -86,7 +88,7 @@ class Model:
             if own is None or own == ctx:
                 self.owner[nm] = ctx
                 accepted.append(nm)
-        new = {"gen": self.gen, "names": accepted, "resp": resp, "ctx": ctx}
+        new = {"gen": self.gen, "names": accepted, "resp": resp, "ctx": ctx, "fuzzy": len(accepted) != len(names)}
         old = self.funcs.get((ctx, fname))
         for nm in accepted:
             if any(nm in f["names"] for k, f in self.funcs.items() if k != (ctx, fname)):
@@ -108,6 +110,15 @@ class Model:
 
     def registered(self):
         return {nm for nm in UNIVERSE if self.declarers(nm)}
+
+    def fuzzy_names(self):
+        """Names accepted from a declaration of which another name was rejected: while that function lives, whether they are
+        registered is not specified (the subsystems differ); once it is gone they must be gone."""
+        out = set()
+        for f in self.funcs.values():
+            if f.get("fuzzy"):
+                out.update(n for n in f["names"] if len(self.declarers(n)) == 1)
+        return out
 
     def newest(self, name):
         ds = self.declarers(name)
@@ -147,8 +158,9 @@ def run_seq(legacy, seq, final_unload=True):
         trace = []
 
         def check_registry(step, op):
-            have = {nm for nm in UNIVERSE if w.hass.services.has_service(*nm)}
-            want = m.registered()
+            fz = m.fuzzy_names()
+            have = {nm for nm in UNIVERSE if w.hass.services.has_service(*nm)} - fz
+            want = m.registered() - fz
             if have != want:
                 return {"kind": "registry", "step": step, "op": list(op), "expected": sorted(want), "observed": sorted(have)}
             return None
@@ -156,6 +168,8 @@ def run_seq(legacy, seq, final_unload=True):
         def call_all(i, op):
             nonlocal xcount
             for nm in UNIVERSE:
+                if nm in m.fuzzy_names():
+                    continue
                 xcount += 1
                 newest = m.newest(nm)
                 if newest is None:
@@ -187,6 +201,19 @@ def run_seq(legacy, seq, final_unload=True):
                     exp_resp = {"got": xcount, "gen": newest["gen"]} if rr else None
                     if resp != exp_resp:
                         return {"kind": "response", "step": i, "name": nm, "expected": exp_resp, "observed": resp}
+                if newest["resp"] != "only":
+                    # the call's data is delivered as given, also under the names the integration adds itself
+                    xcount += 1
+                    n0 = len(runs)
+                    try:
+                        w.call_service(nm[0], nm[1], {"x": xcount, "trigger_type": "from-data"})
+                    except Exception as exc:  # noqa
+                        return {"kind": "call-raised", "step": i, "op": list(op), "name": nm, "detail": repr(exc)[:200]}
+                    got = [tuple(r[:5]) for r in runs[n0:]]
+                    fn = [k for k, f in m.funcs.items() if f is newest][0]
+                    if got != [(fn[0], fn[1], newest["gen"], "from-data", xcount)]:
+                        return {"kind": "call-data-overridden", "step": i, "op": list(op), "name": nm,
+                                "expected": [(fn[0], fn[1], newest["gen"], "from-data", xcount)], "observed": got}
             return None
 
         for i, op in enumerate(seq):
